@@ -4,6 +4,7 @@ A case is a founder population, an additive model and a *history* (JSON list of 
 integer arguments are interpreted relative to the current population).  Invariants are checked after every step against
 integer allele counts.
 """
+import copy
 import math
 
 import numpy
@@ -64,9 +65,11 @@ def history_case(draw):
                           "seed": draw(st.integers(0, 2 ** 32 - 1))})
         elif kind == "select":
             steps.append({"op": "select", "idx": draw(st.lists(st.integers(0, 10 ** 6), min_size=1, max_size=10)),
-                          "to": draw(st.sampled_from([None, None] + SIZES[:8]))})
+                          "to": draw(st.sampled_from([None, None] + SIZES[:8])),
+                          "via": draw(st.sampled_from(["select", "delete", "remove"]))})
         else:
-            steps.append({"op": "truncate", "k": draw(st.integers(1, 6)), "trait": draw(st.integers(0, 2))})
+            steps.append({"op": "truncate", "k": draw(st.integers(1, 6)), "trait": draw(st.integers(0, 2)),
+                          "via": draw(st.sampled_from(["select", "delete", "remove"]))})
     return {"n0": n0, "p": p, "t": t, "lay": lay, "cols": cols, "u": u, "beta": beta, "steps": steps,
             "unscale": draw(st.booleans())}
 
@@ -88,21 +91,22 @@ def founders(case):
     return a
 
 
-def ref_limits(u, counts, d, loc):
-    """upper / lower selection limit from integer allele counts (diploid): independent of allele frequencies as floats"""
+def ref_limits(u, counts, d, loc, ploidy=2):
+    """upper / lower selection limit from integer allele counts: independent of allele frequencies as floats"""
     p, t = u.shape
     usl, lsl = [], []
+    m = float(ploidy)
     for k in range(t):
         hi, lo = [], []
         for j in range(p):
             e = float(u[j, k])
             c = counts[j]
             if e > 0.0:
-                hi.append(2.0 * e if c > 0 else 0.0)
-                lo.append(2.0 * e if c == d else 0.0)
+                hi.append(m * e if c > 0 else 0.0)
+                lo.append(m * e if c == d else 0.0)
             else:
-                hi.append(2.0 * e if c == d else 0.0)
-                lo.append(2.0 * e if c > 0 else 0.0)
+                hi.append(m * e if c == d else 0.0)
+                lo.append(m * e if c > 0 else 0.0)
         usl.append(math.fsum(hi) + loc[k])
         lsl.append(math.fsum(lo) + loc[k])
     return usl, lsl
@@ -199,7 +203,57 @@ def check_history(case, ctx):
         prev = {name: (numpy.asarray(a, dtype="float64").ravel().copy(), numpy.asarray(b, dtype="float64").ravel().copy()) for name, (a, b) in forms.items()}
         return vals
 
+    # Unphased views of the same population that live across selection steps and are culled by the same selection through
+    # select_taxa / delete_taxa of the complement / in-place remove_taxa: the dosage matrix of the diploids (ploidy 2) and
+    # the 2n chromosome copies as haploid individuals (ploidy 1; same allele counts, limits with one copy per locus).
+    views = {}
+
+    def fresh_views():
+        g = pop.mat
+        views["diploid_dosages"] = (DenseGenotypeMatrix(mat=g.sum(0).astype("int8"), ploidy=2), 2)
+        views["haploid_copies"] = (DenseGenotypeMatrix(mat=numpy.concatenate([g[0], g[1]], axis=0).astype("int8"), ploidy=1), 1)
+
+    def cull_views(idx, n, via):
+        uniq = len(set(idx)) == len(idx) and list(idx) == sorted(idx)     # culling keeps the survivors in their old order
+        for name, (vm, m) in list(views.items()):
+            rows = list(idx) if m == 2 else list(idx) + [n + i for i in idx]
+            total = n if m == 2 else 2 * n
+            comp = sorted(set(range(total)) - set(rows))
+            if via == "select" or not uniq or not comp:
+                vm = vm.select_taxa(numpy.array(rows, dtype="int64"))
+                ctx.label("view_culled_by_select_taxa")
+            elif via == "delete":
+                vm = vm.delete_taxa(numpy.array(comp, dtype="int64"))
+                ctx.label("view_culled_by_delete_taxa")
+            else:
+                vm = copy.deepcopy(vm)
+                vm.remove_taxa(numpy.array(comp, dtype="int64"))
+                ctx.label("view_culled_by_remove_taxa_in_place")
+            views[name] = (vm, m)
+
+    def observe_views(step_no, what):
+        g = pop.mat
+        n = g.shape[1]
+        d = 2 * n
+        counts = [int(x) for x in g.sum(0, dtype="int64").sum(0)]
+        for name, (vm, m) in views.items():
+            rusl, rlsl = ref_limits(u, counts, d, loc, ploidy=m)
+            if not ctx.check(vm.ntaxa == (n if m == 2 else 2 * n), "view.members",
+                             lambda: "step %d (%s) view %s: %s members, expected %s" % (step_no, what, name, vm.ntaxa, n if m == 2 else 2 * n)):
+                continue
+            vvals = numpy.asarray(vm.mat, dtype="float64") @ u + numpy.array(loc)[None, :]
+            usl = numpy.asarray(model.usl(vm, unscale=unscale), dtype="float64").ravel()
+            lsl = numpy.asarray(model.lsl(vm, unscale=unscale), dtype="float64").ravel()
+            for k in range(t):
+                where = "step %d (%s) n=%d trait %d via culled view %s" % (step_no, what, n, k, name)
+                ctx.check(abs(usl[k] - rusl[k]) <= tol, "usl.definition", lambda: "%s: usl=%r, from integer counts %r" % (where, float(usl[k]), rusl[k]))
+                ctx.check(abs(lsl[k] - rlsl[k]) <= tol, "lsl.definition", lambda: "%s: lsl=%r, from integer counts %r" % (where, float(lsl[k]), rlsl[k]))
+                ctx.check(float(vvals[:, k].max()) <= usl[k] + tol, "bracket.upper", lambda: "%s: member value %r exceeds usl %r" % (where, float(vvals[:, k].max()), float(usl[k])))
+                ctx.check(float(vvals[:, k].min()) >= lsl[k] - tol, "bracket.lower", lambda: "%s: member value %r below lsl %r" % (where, float(vvals[:, k].min()), float(lsl[k])))
+
     vals = observe(0, "founders")
+    fresh_views()
+    observe_views(0, "founders")
     for sno, step in enumerate(case["steps"], 1):
         n = pop.ntaxa
         if step["op"] == "select":
@@ -207,11 +261,13 @@ def check_history(case, ctx):
             if step.get("to"):
                 idx = [idx[q % len(idx)] for q in range(step["to"])]
             pop = pop.select_taxa(numpy.array(idx, dtype="int64"))
+            cull_views(idx, n, step.get("via", "select"))
             what = "select %d" % len(idx)
         elif step["op"] == "truncate":
             k = min(step["k"], n)
             order = numpy.argsort(-vals[:, step["trait"] % case["t"]], kind="stable")[:k]
             pop = pop.select_taxa(numpy.array(sorted(order.tolist()), dtype="int64"))
+            cull_views(sorted(order.tolist()), n, step.get("via", "select"))
             what = "truncate %d" % k
         else:
             cls, npar, isdh, _ = PROTOCOLS[step["prot"]]
@@ -222,7 +278,9 @@ def check_history(case, ctx):
             pop = mp.mate(pop, xc, step["nmating"], step["nprogeny"], nself=step["nself"])
             n_mate += 1
             what = "%s -> %d" % (step["prot"], pop.ntaxa)
+            fresh_views()
         vals = observe(sno, what)
+        observe_views(sno, what)
     ctx.label("matings>=2", n_mate >= 2)
     ctx.label("locus_lost_along_history", any_lost_during)
     ctx.nontrivial(n_mate >= 1 and any_lost_during)
